@@ -58,4 +58,10 @@ CHECKS = {
                 level_note="Trusted: watchdog thresholds (20 s or 3 GiB for a call that normally takes microseconds on <=16 cores). A child that dies with a journalled case is reported as a violation of that case.",
                 technique="runtime monitor with panic capture, journalling and wall/heap watchdog over hostile planner inputs",
                 quick=dict(batches=4, wall=900), thorough=dict(batches=12, wall=3000), assumptions=[]),
+    "C33": dict(test="TestC33", level="exploration", seed=133,
+                rule="nodes with whole-core shares (2..8 cores, 12 thorough; capacity base or 2*base per core; share base 100/10; with and without a 2-node NUMA split, NUMA memory 5000/5000 or 0/0), 1..6 bound workloads placed through the plugin (CalculateDeploy + commit; fractional, whole and mixed requests), then every workload re-allocated in turn with keep-cpu-bind, cpu delta 0 and memory delta in {0,+100,-100}. Oracle compares the SET of cores and the NUMA node before/after (piece redistribution inside the same cores is not a violation). Non-trivial = a re-allocation that succeeded; distinct = hash(node state, core set, memory delta)",
+                level_text="Every successful no-change re-allocation on generated whole-share nodes is checked for an unchanged core set and NUMA node; >=500 judged re-allocations (>=100 on NUMA nodes) are required.",
+                level_note="Trusted: harness oracle; workloads are placed by the plugin itself, so only placements the planner really produces are explored.",
+                technique="reference-model runtime monitor over CalculateRealloc on plugin-produced placements",
+                quick=dict(batches=4, wall=900), thorough=dict(batches=12, wall=3000), assumptions=["whole-core shares = every core's capacity is a multiple of the share base"]),
 }
